@@ -270,6 +270,36 @@ def run(tier):
     rej = ck.validate("Trace_GBParallel", tpool, PTRACE, "pool", nontrivial=lambda t: t["order"] != sorted(t["order"]) or bool(t["raises"]),
                       key=lambda t: json.dumps([t["want"], t["raises"], t.get("reduce")]))
     ck.judge(rej, None, {})
+    # (b2) specification -> code: every TERMINAL state TLC reaches in GBParallel (a set of raising tasks, the order in which the
+    # loop met the tasks, the outcome, the gathered results) is replayed into the real pool and the real outcome is compared
+    # with the state's, not merely accepted
+    from .. import tlc as _tlc
+    term = [st for st in _tlc.dump_states("GBParallel", PMC.format(spec="Spec", n=3 if tier == "quick" else 4, w=2, mr="TRUE", dev="FALSE", tail=""), "C03_pool")
+            if st.get("pc") in ('"returned"', '"raised"') and st.get("reduced") == "<<>>"]
+    seen, replay = set(), []
+    for st in term:
+        n = int(st["ntasks"])
+        order = [x - 1 for x in _tlc.tla_seq_ints(st["order"])]
+        raises = [x - 1 for x in _tlc.tla_seq_ints(st["raises"])]
+        key = (n, tuple(order), tuple(raises))
+        if key in seen:
+            continue
+        seen.add(key)
+        rest = [i for i in range(n) if i not in order]
+        replay.append(dict(n=n, order=order + rest, raises=raises, _spec=dict(pc=st["pc"].strip('"'), exc=int(st["exc"]) - 1 if st["exc"] != "-1" else -1,
+                                                                             results=_tlc.tla_seq_ints(st["results"]), order=order)))
+    treplay = ck.drive(strategy.run_pool, replay, procs=2)
+    bad = []
+    for c, t in zip(replay, treplay):
+        sp = c["_spec"]
+        ok = t["outcome"] == sp["pc"] and (sp["pc"] != "returned" or t["results"] == sp["results"]) and (sp["pc"] != "raised" or (t["exc"] == sp["exc"] and t["order"] == sp["order"]))
+        if not ok and (t["forced"] or c["n"] == 1):
+            bad.append(dict(t, spec_state=sp, what="the real pool did not end in the state the specification reaches for this behaviour"))
+    ck.notes["pool_spec_behaviours_replayed"] = {"terminal_states": len(term), "distinct_behaviours": len(replay), "forced": sum(t["forced"] for t in treplay), "mismatches": len(bad)}
+    ck.evaluations += len(treplay)
+    ck.traces_ok += len(treplay) - len(bad)
+    for b in bad:
+        ck.add_violation(b)
     forced = []
     for _ in range(300 if tier == "quick" else 3000):
         n = rng.randrange(3, 9)
